@@ -35,13 +35,13 @@ impl GroupB {
             _ => "C18",
         };
         let extra = match (id, tier) {
-            ("C05", Tier::Quick) => 6000,
+            ("C05", Tier::Quick) => 12000,
             ("C05", Tier::Thorough) => 120000,
-            ("C06", Tier::Quick) => 6000,
+            ("C06", Tier::Quick) => 20000,
             ("C06", Tier::Thorough) => 150000,
-            ("C17", Tier::Quick) => 5000,
+            ("C17", Tier::Quick) => 15000,
             ("C17", Tier::Thorough) => 100000,
-            (_, Tier::Quick) => 6000,
+            (_, Tier::Quick) => 12000,
             (_, Tier::Thorough) => 120000,
         };
         GroupB {
